@@ -403,46 +403,77 @@ def gen_value(rs, int_digits, d, allow_wide=False):
     return float(x)
 
 
-def gen_box(rs, wide=False):
-    kind = int(rs.randint(0, 10))
+OFF_SLOTS = [(0, 1), (0, 2), (1, 0), (1, 2), (2, 0), (2, 1)]
+TINY = [1e-6, 4.9e-6, 5e-6, 5.1e-6, 1e-5, 1e-9]
 
-    def val(diag):
-        k = int(rs.randint(0, 8))
-        if not diag and k == 0:
-            return float(rs.choice([1e-9, -1e-9, 4.9e-6, -0.0, 5.1e-6]))
-        if not diag and k == 1:
-            return 0.0
-        x = gen_value(rs, 3, 5)
-        if diag:
-            x = abs(x)
-        return x
+
+def gen_box(rs, wide=False):
+    """default / 3-vector / diagonal 3x3 / triclinic.  The triclinic ones enumerate the situations the
+    3-or-9-numbers rule of dump_lattice_gro has to get right: a single off-diagonal entry (either sign, each
+    slot), random subsets with mixed signs, entries that cancel exactly in pairs and in triples (a signed
+    sum is 0.0), all-negative entries, tiny entries around the written precision (both signs), zeros and
+    negative zeros in some slots, and generic dense matrices."""
+    kind = int(rs.randint(0, 16))
+
+    def diagval():
+        return abs(gen_value(rs, 3, 5))
+
+    def dyadic():
+        return float(int(rs.randint(1, 41))) / 8.0 * float(2 ** int(rs.randint(-2, 3)))
+
+    def offval():
+        k = int(rs.randint(0, 6))
+        if k == 0:
+            return float(rs.choice(TINY)) * float(rs.choice([-1.0, 1.0]))
+        if k == 1:
+            return dyadic() * float(rs.choice([-1.0, 1.0]))
+        return gen_value(rs, 3, 5)
     if kind == 0:
         return ("default",)
     if kind in (1, 2):
-        return ("vec", [val(True) for _ in range(3)])
-    if kind in (3, 4):
-        m = [[0.0] * 3 for _ in range(3)]
-        for i in range(3):
-            m[i][i] = val(True)
+        return ("vec", [diagval() for _ in range(3)])
+    m = [[0.0] * 3 for _ in range(3)]
+    for i in range(3):
+        m[i][i] = diagval()
+    if kind == 3:
         return ("mat", m)
-    if kind in (5, 6, 7):
-        # every single off-diagonal position / random subsets of them non-zero (the 3-or-9 rule
-        # looks at each of the six)
-        m = [[0.0] * 3 for _ in range(3)]
-        for i in range(3):
-            m[i][i] = val(True)
-        off = [(0, 1), (0, 2), (1, 0), (1, 2), (2, 0), (2, 1)]
-        if kind == 5:
-            chosen = [off[int(rs.randint(0, 6))]]
-        else:
-            chosen = [o for o in off if rs.randint(0, 2)]
-        for (i, j) in chosen:
-            x = val(False)
-            m[i][j] = x if x != 0.0 or rs.randint(0, 2) else float(rs.uniform(-3, 3))
-        return ("mat", m)
-    m = [[val(i == j) for j in range(3)] for i in range(3)]
-    if kind == 8:                          # GROMACS-style triclinic (v1(y)=v1(z)=v2(z)=0)
-        m[0][1] = m[0][2] = m[1][2] = 0.0
+    slots = [OFF_SLOTS[int(i)] for i in rs.permutation(6)]
+    if kind == 4:                          # one entry, either sign
+        (i, j) = slots[0]
+        m[i][j] = offval() or 0.75
+    elif kind == 5:                        # one negative entry
+        (i, j) = slots[0]
+        m[i][j] = -abs(offval() or 0.75)
+    elif kind == 6:                        # random subset, mixed signs
+        for (i, j) in slots[:int(rs.randint(1, 7))]:
+            m[i][j] = offval()
+    elif kind == 7:                        # exactly cancelling pair  a, -a
+        a = dyadic() if rs.randint(0, 2) else abs(gen_value(rs, 3, 5)) or 1.5
+        (i, j), (k, l) = slots[0], slots[1]
+        m[i][j], m[k][l] = a, -a
+    elif kind == 8:                        # exactly cancelling triple  a, b, -(a+b)  (dyadic: the sum is exact)
+        a, b = dyadic(), dyadic()
+        for (i, j), v in zip(slots[:3], [a, b, -(a + b)]):
+            m[i][j] = v
+    elif kind == 9:                        # two cancelling pairs / pair plus zeros and negative zeros
+        a, b = dyadic(), dyadic()
+        for (i, j), v in zip(slots[:6], [a, -a, b, -b, -0.0, 0.0]):
+            m[i][j] = v
+    elif kind == 10:                       # all-negative entries in a subset (or all) of the slots
+        for (i, j) in slots[:int(rs.randint(1, 7))]:
+            m[i][j] = -abs(offval() or 0.5)
+    elif kind == 11:                       # tiny entries around the written precision, both signs
+        for (i, j) in slots[:int(rs.randint(1, 4))]:
+            m[i][j] = float(rs.choice(TINY)) * float(rs.choice([-1.0, 1.0]))
+    elif kind == 12:                       # tiny entries that cancel
+        t = float(rs.choice(TINY))
+        (i, j), (k, l) = slots[0], slots[1]
+        m[i][j], m[k][l] = t, -t
+    elif kind == 13:                       # GROMACS-style triclinic (v1(y)=v1(z)=v2(z)=0), tilts of either sign
+        m[1][0], m[2][0], m[2][1] = offval(), offval(), offval()
+    else:                                  # dense
+        for (i, j) in OFF_SLOTS:
+            m[i][j] = offval()
     return ("mat", m)
 
 
